@@ -67,7 +67,7 @@ mod verif_kani_keys {
 def run(harnesses, timeout=1800):
     """returns dict harness -> {'status': 'ok'|'fail'|'undecided', 'detail': str, 'time_s': float}"""
     t0 = time.time()
-    d = tempfile.mkdtemp(prefix='riti-verif-kani-')
+    d = tempfile.mkdtemp(prefix='riti-verif-kani-', dir=('/var/tmp' if os.access('/var/tmp', os.W_OK) else None))
     out = {}
     try:
         for name in ('src', 'data', 'include', 'Cargo.toml', 'Cargo.lock'):
